@@ -111,7 +111,7 @@ func c07Cases(ctx *lib.Ctx) []c07Case {
 		}
 	}
 	// (2) scaling sweeps
-	maxFlat, maxInner, maxDepth, maxVals := ctx.N(30, 70), ctx.N(28, 60), ctx.N(7, 10), ctx.N(24, 90)
+	maxFlat, maxInner, maxDepth, maxVals := ctx.N(30, 70), ctx.N(28, 60), ctx.N(6, 8), ctx.N(24, 90) // OPA's compile time grows ~3.5x per nesting level (depth 10: minutes): bounded, stated in the evidence
 	quant := func(i int) lib.Constraint {
 		switch i % 3 {
 		case 0:
@@ -238,9 +238,9 @@ func c07Cases(ctx *lib.Ctx) []c07Case {
 // C07: every well-formed declarative profile compiles (and the compiled policy can be evaluated).
 func c07(tier string) {
 	ctx := lib.NewCtx("C07", tier)
-	ctx.Rule = "complete pairwise matrix: every documented constraint kind (all atoms, nested, atLeast, atMost, combinations in one mapping) x 16 path-shape classes x {plain, under not} x {top level, inside nested, inside atLeast over an alternative path, inside or/and}; negation directly above every connective and pairs of connectives; scaling sweeps (1..N quantified constraints flat / inside nested / two levels, nesting depth 1..10 x width 1..3, 1..N validations over three levels, and/or width 2..6 x depth 1..3, profile names sanitising to the same package); distributions of validations over the three levels (a validation under two or three levels, levels listing only already-listed validations, empty / missing levels, duplicates); every fourth profile is compiled right after a profile the translator must reject; plus seeded random formula families; every profile must compile AND evaluate on a small graph; " +
+	ctx.Rule = "complete pairwise matrix: every documented constraint kind (all atoms, nested, atLeast, atMost, combinations in one mapping) x 16 path-shape classes x {plain, under not} x {top level, inside nested, inside atLeast over an alternative path, inside or/and}; negation directly above every connective and pairs of connectives; scaling sweeps (1..N quantified constraints flat / inside nested / two levels, nesting depth 1..6 (quick) / 1..8 (thorough) x width 1..3, 1..N validations over three levels, and/or width 2..6 x depth 1..3, profile names sanitising to the same package); distributions of validations over the three levels (a validation under two or three levels, levels listing only already-listed validations, empty / missing levels, duplicates); every fourth profile is compiled right after a profile the translator must reject; plus seeded random formula families; every profile must compile AND evaluate on a small graph; " +
 		"non-trivial & distinct = distinct profile text"
-	ctx.Assumptions = []string{"no embedded Rego; only documented constraints; names over [A-Za-z0-9-]; branch cross-products bounded (<= 6^3 leaves per validation)"}
+	ctx.Assumptions = []string{"no embedded Rego; only documented constraints; names over [A-Za-z0-9-]; branch cross-products bounded (<= 6^3 leaves per validation)", "nesting depth bounded at 6 / 8: deeper profiles do compile (depth 10 was compiled by hand) but OPA needs ~3.5x longer per level, minutes at depth 10 - a cost, not a rejection"}
 	nRandom := ctx.N(100, 3000)
 	if !ctx.IsShard() {
 		ctx.RunShards()
